@@ -60,6 +60,14 @@ def call_ref(it, name, args, kwargs, node, fr):
         return K(name.split(".")[-1])
     if name in ("warnings.warn", "builtins.print"):
         return K(None)
+    if name in ("re.match", "re.search", "re.fullmatch") and all(is_pyconst(a) for a in args) and not kwargs:
+        import re as _re
+        mt = getattr(_re, name.split(".")[1])(*[pyval(a) for a in args])
+        if mt is None:
+            return K(None)
+        mv = Seq([K(g) for g in mt.groups()], "match")
+        mv.match0 = mt.group(0)
+        return mv
     if name in ("re.findall", "re.sub", "re.split") and all(is_pyconst(a) for a in args) and not kwargs:
         import re as _re
         return from_py(getattr(_re, name.split(".")[1])(*[pyval(a) for a in args]))
@@ -90,6 +98,18 @@ def call_numpy(it, name, mod, fn, args, kwargs, node, fr):
         return map1(lambda t: mk(op, t), args[0])
     if fn in BINARY and len(args) >= 2:
         return binmap(BINARY[fn], args[0], args[1], it, node)
+    if fn in TRANSPARENT and args and isinstance(args[0], (Val, Unk)) and not is_pyconst(args[0]):
+        import copy as _copy
+        v0 = args[0]
+        v = _copy.copy(v0)
+        cp = kwargs.get("copy")
+        copies = fn in ("array", "copy") and not (cp is not None and is_pyconst(cp) and pyval(cp) is False)
+        v.fresh = True if copies else getattr(v0, "fresh", None)
+        if fn in ("float32", "float64", "single", "double") and isinstance(v, Val):
+            v.term = mk("float", v.term)
+        if kwargs.get("ndmin") is not None:
+            pass
+        return v
     if fn in TRANSPARENT and args:
         v = args[0]
         a = as_arr(v) if isinstance(v, Seq) else None
@@ -230,6 +250,7 @@ def call_numpy(it, name, mod, fn, args, kwargs, node, fr):
             return a
         v = Val(fv)
         v.alloc = fn
+        v.fresh = True
         v.alloc_shape = shape
         if dims is not None and len(dims) >= 1:
             so = getattr(dims[0], "shape_of", None)
@@ -238,6 +259,9 @@ def call_numpy(it, name, mod, fn, args, kwargs, node, fr):
         return v
     if fn == "tile" and len(args) == 2:
         v, reps = args
+        t_ = imgdom.tile(it, v, reps, node) if isinstance(v, Val) else None
+        if t_ is not None:
+            return t_
         a = as_arr(v)
         if a is not None and isinstance(reps, Seq) and len(reps.items) == 2 and is_pyconst(reps.items[1]) and pyval(reps.items[1]) == 1:
             return Arr(a.cols, 2)
@@ -1265,6 +1289,12 @@ def rot_method(it, r, name, args, kwargs, node):
 
 
 def seq_method(it, s, name, args, kwargs, node, fr):
+    if s.kind == "match":
+        if name == "groups":
+            return Seq(list(s.items), "tuple")
+        if name == "group":
+            i = pyval(args[0]) if args else 0
+            return K(s.match0) if i == 0 else s.items[i - 1]
     if name == "append":
         s.items.append(args[0])
         it.record("call", "list.append", [s] + args, {}, node)
